@@ -55,6 +55,7 @@ def gen_cases(seed, tier):
     cases += twins
     import random
     cases += PC.state_stream(random.Random(seed + 79), 400 if tier == 'quick' else 6000, modes=(True,))
+    cases += PC.twin_cases(random.Random(seed + 81), 250 if tier == 'quick' else 4000, tolerant=(True,))
     # a context whose macros take comma-separated list arguments (real code only: that parser is outside the model)
     import docgen
     for s in docgen.exhaustive(docgen.SYM_COMMASEP, 3 if tier == 'quick' else 4):
@@ -113,6 +114,10 @@ def oracle(c):
     d = c['desc']
     if d.get('origin') == 'parser-api':
         return _oracle_api(d)
+    if d.get('origin') == 'chained-twin':
+        bad = PC.oracle_twin(d)
+        if bad:
+            return bad
     if not d['tolerant']:
         return None
     s = d['s']
